@@ -8,13 +8,14 @@ recorders.  A step is one atomic action of one thread (one `sync/atomic` call, o
 one reporter call, or a lock-protected region without schedule point).
 
 ```
-Close:  if !closed.CAS(false,true) { return nil }        start  → won | returnedNil
-        close(done)                                       won    → doneClosedPc
+Close:  if !closed.CAS(false,true) {                      start  → won | waitWinner
+            <-closeDone ; return nil }                    waitWinner → returnedNil   (enabled iff `closeDone` is closed)
+        close(done) ; defer close(closeDone)              won    → doneClosedPc
         wg.Wait()                                         doneClosedPc → pass begin   (enabled iff the loop has exited / never existed)
         registry.Report / CachedReport  (final pass)      pass begin → pick [] → [deliver c] → pick [c] … → purgePc   (NO flush here)
         registry.purge()                                  purgePc → flushPc
         baseReporter.Flush()                              flushPc → reporterClose     (log entry `flush`)
-        if io.Closer: return reporter.Close()             reporterClose → returned r
+        if io.Closer: return reporter.Close()             reporterClose → returned r  (and the deferred `close(closeDone)` runs)
 loop:   for { select { case <-ticker.C: reportLoopRun()   waiting → ticked        (event `tick`)
                        case <-done: return } }            waiting → exited        (event `exit`, needs doneClosed)
         reportLoopRun: if closed.Load() { return }        ticked → waiting | pass begin
@@ -26,6 +27,15 @@ The final pass of `Close` and the periodic pass share `passStep`; the periodic p
 over (`passStep` yields the next pc `flush`) the call is about to purge (`afterPass`), the purge drops whatever was
 recorded into a cell after the pass swapped it (never a `pre` token), and only then `Flush` is called (`flushPc`).
 A `Close` call is therefore never at `pass flush` (from that pc — unreachable — the model would flush and purge).
+
+Concurrent `Close` calls (repair D17).  A call that loses the CAS does not return at once any more: it receives from
+the channel `closeDone` (pc `waitWinner`), which the winning call closes by a `defer` — that is, as it returns, AFTER
+the reporter's `Close`.  In the model the winner's last step (`reporterClose → returned r`, closable reporter or not)
+sets `closeDone := true` in the same atomic action (nothing observable lies between the reporter's `Close` returning
+and the deferred `close(closeDone)`), and a call at `waitWinner` is enabled iff `closeDone = true`; its step goes to
+`returnedNil` and appends `(t, none)` to `returns`.  Hence EVERY call that has returned — winner or not — has
+returned after the complete shutdown (`Props.C08.every_close_call_is_a_barrier`).  The old behaviour ("a losing
+call returns nil at once", limitation D5b) is kept in `Legacy.step` only.
 
 The `select` is nondeterministic: from `waiting` both `tick` and (once `done` is closed) `exit` are
 possible.  A slow reporter call is the scheduler not running that thread for a while (the thread sits
@@ -95,7 +105,8 @@ inductive CPc
   | flushPc                 -- registry purged; about to call `Flush` on the reporter
   | reporterClose           -- final flush done; about to close the reporter if it is an `io.Closer`
   | returned (err : Option Nat)   -- the winning call returned `err`
-  | returnedNil             -- CAS failed: returned nil
+  | returnedNil             -- CAS failed, the winning call has returned: returned nil
+  | waitWinner              -- CAS failed; at `<-s.closeDone` (blocked until the winning call has returned)
 deriving Repr, DecidableEq
 
 structure State where
@@ -115,13 +126,14 @@ structure State where
   winner : Option Nat               -- ghost: the call whose CAS succeeded
   returns : List (Nat × Option Nat) -- ghost: (call, result) in order of return, most recent first
   handed : List (Option Nat)        -- ghost: results of `Subscope` calls (`none` = the inert NoopScope)
+  closeDone : Bool                  -- `closeDone` channel closed (the winning `Close` call has returned)
 
 def init (k : Nat) (hasLoop closable : Bool) (err : Option Nat := none) : State :=
   { cells := List.replicate k [], closed := false, doneClosed := false, purged := false,
     hasLoop := hasLoop, closable := closable, err := err,
     loop := if hasLoop then .waiting else .exited,
     closers := fun _ => .start, log := [], dropped := [], issued := [], nextId := 0,
-    winner := none, returns := [], handed := [] }
+    winner := none, returns := [], handed := [], closeDone := false }
 
 inductive Ev
   | record (cell : Nat)     -- one atomic record on a handle of scope `cell`
@@ -194,7 +206,7 @@ def step (s : State) : Ev → Option State
   | .closer t choice =>
     match s.closers t with
     | .start =>
-      if s.closed then some { setC s t .returnedNil with returns := (t, none) :: s.returns }
+      if s.closed then some (setC s t .waitWinner)                 -- CAS failed: no return yet
       else some { setC s t .won with closed := true, winner := some t }
     | .won => some { setC s t .doneClosedPc with doneClosed := true }
     | .doneClosedPc => if s.loop = .exited then some (setC s t (.pass .begin)) else none
@@ -206,11 +218,14 @@ def step (s : State) : Ev → Option State
     | .flushPc => some { setC s t .reporterClose with log := .flush :: s.log }
     | .reporterClose =>
       if s.closable then
-        some { setC s t (.returned s.err) with log := .reporterClose :: s.log, returns := (t, s.err) :: s.returns }
+        some { setC s t (.returned s.err) with log := .reporterClose :: s.log, returns := (t, s.err) :: s.returns,
+                                               closeDone := true }
       else
-        some { setC s t (.returned none) with returns := (t, none) :: s.returns }
+        some { setC s t (.returned none) with returns := (t, none) :: s.returns, closeDone := true }
     | .returned _ => none
     | .returnedNil => none
+    | .waitWinner =>                                               -- `<-s.closeDone`
+      if s.closeDone then some { setC s t .returnedNil with returns := (t, none) :: s.returns } else none
 
 def run (s : State) : List Ev → Option State
   | [] => some s
@@ -263,18 +278,22 @@ structure View where
   log : List LogEv
   dropped : List Token
   returns : List (Nat × Option Nat)
+  closeDone : Bool
 deriving Repr, DecidableEq
 
 def State.view (s : State) (n : Nat) : View :=
   { cells := s.cells, closed := s.closed, doneClosed := s.doneClosed, purged := s.purged, loop := s.loop,
-    closers := (List.range n).map s.closers, log := s.log, dropped := s.dropped, returns := s.returns }
+    closers := (List.range n).map s.closers, log := s.log, dropped := s.dropped, returns := s.returns,
+    closeDone := s.closeDone }
 
 /-! ## the pinned code, kept as a regression witness
 
 `Close` did not wait for the loop goroutine, and every pass ended with `defer r.purgeIfRootClosed()`:
 a pass that finds the root closed when its range loop ends purges the whole registry.  The pinned `Close`
 keeps the OLD order: `reportRegistry()` (pass — which purges — then `Flush`: the closer goes through
-`pass flush`), then the reporter's `Close`; it never is at `purgePc` / `flushPc`. -/
+`pass flush`), then the reporter's `Close`; it never is at `purgePc` / `flushPc`.  And a call that lost the
+CAS returned nil AT ONCE (it never is at `waitWinner`): the old limitation D5b, see
+`Props.C08.legacy_concurrent_close_returns_early`. -/
 namespace Legacy
 
 def passStep (s : State) (c : Nat) : PassPc → Option (State × Option PassPc)
@@ -302,6 +321,9 @@ def step (s : State) : Ev → Option State
     | _ => none
   | .closer t choice =>
     match s.closers t with
+    | .start =>                                                     -- a losing call returned nil at once
+      if s.closed then some { setC s t .returnedNil with returns := (t, none) :: s.returns }
+      else RootClose.step s (.closer t choice)
     | .doneClosedPc => some (setC s t (.pass .begin))               -- no `wg.Wait()`
     | .pass p =>
       match passStep s choice p with
